@@ -687,3 +687,104 @@ func TestC07CalleeLocals(t *testing.T) {
 	}
 	run.Exhaustive()
 }
+
+// onceCase: a call one of whose arguments is an assignment that reads the local it binds.
+type onceCase struct {
+	Text string `json:"text"`
+	Want string `json:"want"`
+}
+
+func checkOnce(c onceCase) (msg string, failed bool) {
+	p := obs.Parse([]byte(c.Text))
+	if !p.OK() {
+		return "HARNESS: " + c.Text, false
+	}
+	r := formula.NewRunner()
+	r.SetThis(map[string]interface{}{
+		"hs1": func(a string) (string, error) { return a, nil },
+		"hs2": func(a, b string) (bool, error) { return a == b, nil },
+		"hi1": func(a int) (int, error) { return a, nil },
+		"has": func(a interface{}, b string) (string, error) { return b, nil },
+		"hvs": func(a ...string) (int, error) { return len(a), nil },
+		"hf2": func(a float64, b string) (float64, error) { return a, nil },
+	})
+	out := obs.Eval(r, context.Background(), p.Src.Expression)
+	if out.Panic != nil || out.Err != nil {
+		return "", true // what a failed call leaves behind is not specified
+	}
+	if got := obs.Show(out.Val); got != c.Want {
+		return fmt.Sprintf("%s = %s, want %s: an argument is evaluated once, so the assignment inside it binds once", c.Text, got, c.Want), false
+	}
+	return "", false
+}
+
+func init() {
+	h.RegisterReplay("c07-once", func(raw json.RawMessage) string {
+		c, err := h.Decode[onceCase](raw)
+		if err != nil {
+			return "bad replay: " + err.Error()
+		}
+		m, _ := checkOnce(c)
+		return m
+	})
+}
+
+// TestC07ArgumentsOnce: `$n = $n + 1` as a call argument binds once, whatever the callee does with the value.
+func TestC07ArgumentsOnce(t *testing.T) {
+	run := h.Begin("C07", "arguments-once", "bounded-exhaustive: every builtin of arity 1..4 (max / min with 2 and 3 arguments) and 6 host functions of plain Go signatures (string, (string, string), int, (any, string), ...string, (float64, string)), every argument position holding '($n = $n + 1)' or '($s = $s + \\'x\\')', the other positions filled with one of 'ab', 2, null, [1], 'a' + 'b'; the formula is '$n = 0, $s = \\'a\\', F(args), [$n, $s]'; oracle: [1, 'a'] resp. [0, 'ax'] whenever the evaluation succeeds (a failing call is skipped and counted: what it leaves behind is not specified); non-trivial: the evaluation succeeded")
+	defer run.End(t)
+	type fn struct {
+		name  string
+		arity int
+	}
+	var fns []fn
+	for _, b := range builtinNames() {
+		switch a := builtinArity[b]; {
+		case a > 0:
+			fns = append(fns, fn{b, a})
+		case a < 0:
+			fns = append(fns, fn{b, 2}, fn{b, 3})
+		}
+	}
+	fns = append(fns, fn{"hs1", 1}, fn{"hs2", 2}, fn{"hi1", 1}, fn{"has", 2}, fn{"hvs", 1}, fn{"hvs", 3}, fn{"hf2", 2})
+	sortFns := func() {
+		for i := 1; i < len(fns); i++ {
+			for j := i; j > 0 && (fns[j].name < fns[j-1].name || (fns[j].name == fns[j-1].name && fns[j].arity < fns[j-1].arity)); j-- {
+				fns[j], fns[j-1] = fns[j-1], fns[j]
+			}
+		}
+	}
+	sortFns()
+	var idx int64
+	for _, f := range fns {
+		for pos := 0; pos < f.arity; pos++ {
+			for _, filler := range []string{"'ab'", "2", "null", "[1]", "'a' + 'b'"} {
+				for k, counter := range []string{"($n = $n + 1)", "($s = $s + 'x')"} {
+					idx++
+					if !h.Mine(idx) || run.NViolations() >= 3 {
+						continue
+					}
+					args := make([]string, f.arity)
+					for i := range args {
+						args[i] = filler
+					}
+					args[pos] = counter
+					c := onceCase{Text: "$n = 0, $s = 'a', " + f.name + "(" + strings.Join(args, ", ") + "), [$n, $s]", Want: []string{`[1,"a"]`, `[0,"ax"]`}[k]}
+					msg, failed := checkOnce(c)
+					if failed {
+						run.Count(false, "call failed (skipped)")
+						continue
+					}
+					run.Count(true, "call succeeded")
+					if idx%97 == 0 {
+						run.Sample("call succeeded", c.Text)
+					}
+					if msg != "" {
+						run.Fail("c07-once", c, msg)
+					}
+				}
+			}
+		}
+	}
+	run.Exhaustive()
+}
